@@ -207,6 +207,8 @@ def call_template(name, arity):
             cands.append(name + hole)
         if arity == 2:
             cands.append("%s " + name + " %s")
+        if arity == 1 and not PLAIN.match(name):
+            cands.append(name + " %s")           # prefix operator
         if name.startswith("'"):
             cands.append(name + hole)
         cands.append("'" + name + "'" + hole)
@@ -375,6 +377,7 @@ def query_program(lib, call):
 def report_crash(acc, out, program, found_in):
     """every reported example is a program text on which the default inference crashes"""
     exc, site = out[1], out[2]
+    program = canonical_example(exc, site) or program
     flat = program.replace("\n", " ")
     acc.violation(
         "crash:%s@%s" % (exc, site),
@@ -506,6 +509,67 @@ def run_calls(u, tier, acc):
                     report_crash(acc, out2, clause_program(lib, call_text(template, small)), "clause")
         elif clause_mode:
             acc.counters["a_clause_skipped_after_goal_timeout"] += 1
+
+
+# ---------------------------------------------------------------------------------------------
+# stratum (a2): every registered arithmetic function x all argument tuples, evaluated by is/2
+
+ARITH_VALUES = ["1", "-2", "2.5", "0", "1000", '"s"', "a"]
+
+
+def arithmetic_functions():
+    """(name, arity, template) for every entry of problog.logic._arithmetic_functions that has a
+    call syntax (found with the real parser)"""
+    from problog import logic
+
+    res = []
+    for name, arity in sorted(logic._arithmetic_functions):
+        res.append((name, arity, call_template(name, arity)))
+    return res
+
+
+def run_arithmetic(k, acc):
+    name, arity, template = arithmetic_functions()[k]
+    if template is None:
+        acc.counters["arithmetic_functions_without_call_syntax"] += 1
+        return
+    seen_sites = set()
+    first = True
+    for vals in itertools.product(ARITH_VALUES, repeat=arity):
+        if acc.expired():
+            acc.cap("wall budget reached inside shard (stratum a2)")
+            break
+
+        def make(vs):
+            return "q :- Y is %s. query(q)." % (template % tuple(vs) if arity else template)
+
+        src = make(vals)
+        out = run_program(src)
+        cls = outcome_class(out)
+        acc.states += 1
+        if cls not in ("error:ParseError", "error:UnknownClause"):
+            acc.nontrivial += 1
+        if first:
+            acc.sample({"stratum": "a2", "function": "%s/%d" % (name, arity), "first_program": src, "outcome": cls})
+            first = False
+        if judge(acc, out, "a2"):
+            target = (out[1], out[2])
+            if target in seen_sites:
+                report_crash(acc, out, src, "a2")
+                continue
+            seen_sites.add(target)
+
+            def fails(vs):
+                o = run_program(make(vs))
+                return o[0] == "crash" and (o[1], o[2]) == target
+
+            def cands(vs):
+                for i in range(len(vs)):
+                    if vs[i] != "1":
+                        yield vs[:i] + ["1"] + vs[i + 1:]
+
+            small = shrink(list(vals), cands, fails, limit=20)
+            report_crash(acc, out, make(small), "a2")
 
 
 # ---------------------------------------------------------------------------------------------
@@ -753,10 +817,64 @@ def run_tokens(shard, tier, acc):
 
 
 # ---------------------------------------------------------------------------------------------
-# replay hints: program texts tried first when a call site is replayed (a replay that finds none of
-# them at the recorded site falls back to re-running the quick space shard by shard)
+# canonical examples of the known call sites: used as the reported example when they (still) crash at
+# that site, and tried first by replay (which otherwise falls back to re-running the quick space)
 
-HINTS = []
+HINTS = {
+    "ModuleNotFoundError@engine_builtin.py:_builtin_set_state": "q :- set_state(a). query(q).",
+    "ModuleNotFoundError@engine_builtin.py:_builtin_reset_state": "q :- reset_state. query(q).",
+    "ModuleNotFoundError@engine_builtin.py:_builtin_check_state": "q :- check_state(a). query(q).",
+    "ModuleNotFoundError@engine_builtin.py:_builtin_condition": "q :- condition(a). query(q).",
+    "TypeError@engine_builtin.py:_builtin_lt": 'q :- 1 < "s". query(q).',
+    "TypeError@engine_builtin.py:_builtin_le": 'q :- 1 =< "s". query(q).',
+    "TypeError@engine_builtin.py:_builtin_gt": 'q :- 1 > "s". query(q).',
+    "TypeError@engine_builtin.py:_builtin_ge": 'q :- 1 >= "s". query(q).',
+    "TypeError@engine_builtin.py:_builtin_try_calln": "q :- try_call(a,a). query(q).",
+    "TypeError@engine_builtin.py:_builtin_find_scope": "q :- find_scope(a,X). query(q).",
+    "AttributeError@engine_builtin.py:_builtin_numbervars": "q :- numbervars(X,1,a). query(q).",
+    "AttributeError@engine_builtin.py:_build_scope": "q :- call_in_scope(X,a). query(q).",
+    "ValueError@logic.py:term2list": "q :- call_in_scope([a|T],a). query(q).",
+    "AttributeError@clausedb.py:_get_head": "q :- possible(X). query(q).",
+    "UnifyError@engine_unify.py:unify_value": "query(numbervars(a,1,1)).",
+    "UnifyError@engine_unify.py:unify_value_dc": "query(subsumes_term(a,1)).",
+    "UnifyError@engine_builtin.py:_builtin_length": "query(length([a|T],-2)).",
+    "TypeError@engine_builtin.py:_builtin_error": "query(error(a)).",
+    "AttributeError@engine_builtin.py:_builtin_probability": "query(probabilityX(a)).",
+    "TypeError@clausedb.py:get_node": ":- use_module(library(assert)). q :- retract(a). query(q).",
+    "AttributeError@program.py:add_statement": ":- use_module(library(assert)). q :- assertz(X). query(q).",
+    "AttributeError@record.py:erase": ":- use_module(library(record)). q :- erase(a). query(q).",
+    "AttributeError@record.py:instance": ":- use_module(library(record)). q :- instance(a,X). query(q).",
+    "ValueError@string.py:str2int": ":- use_module(library(string)). q :- str2int(a,X). query(q).",
+    "IndexError@lists.py:enum_groups": ":- use_module(library(lists)). q :- enum_groups([a],X,Y). query(q).",
+    "TypeError@logic.py:<lambda>": 'q :- Y is "s" - 1. query(q).',
+    "TypeError@logic.py:compute_function": 'q :- Y is abs("s"). query(q).',
+    "OverflowError@logic.py:<lambda>": "q :- Y is 2.5 ** 1000. query(q).",
+    "OverflowError@logic.py:compute_function": "q :- Y is cosh(1000). query(q).",
+    "AttributeError@engine.py:ground": "evidence(\\+X).",
+    "ValueError@logic.py:__float__": '"s"::a. query(a).',
+    "AssertionError@eval_nodes.py:__setitem__": "0.3::a. p :- a, \\+a. p :- p. p :- a. query(p).",
+    "AttributeError@clausedb.py:add_all": ":- ( ) .",
+    "AttributeError@program.py:build_unop": "- ( ) .",
+    "Exception@program.py:_update_functors": "( ) .",
+    "IndexError@clausedb.py:add_all": "a :: :- .",
+    "IndexError@logic.py:to_list": "a ; ; .",
+    "IndexError@parser.py:_build_clause": "; :- a .",
+}
+_CANON = {}
+
+
+def canonical_example(exc, site):
+    """the fixed example of a known call site, if it (still) crashes there: makes the example shown for
+    a known site independent of the order in which shards finish"""
+    key = "%s@%s" % (exc, site)
+    if key not in _CANON:
+        src = HINTS.get(key)
+        ok = False
+        if src is not None:
+            o = run_program(src)
+            ok = o[0] == "crash" and (o[1], o[2]) == (exc, site)
+        _CANON[key] = src if ok else None
+    return _CANON[key]
 
 
 class C27(Prop):
@@ -793,6 +911,7 @@ class C27(Prop):
     # -- shards
     def shards(self, tier):
         res = [["a", k] for k in range(len(universe()))]
+        res += [["a2", k] for k in range(len(arithmetic_functions()))]
         res += b_shards(tier)
         res += b2_shards(tier)
         res += c_shards(tier)
@@ -815,6 +934,8 @@ class C27(Prop):
             if u["lib"] in ("lists", "nlp4plp", "apply", "aggregate", "scope"):
                 per += 30.0          # calls that run into the per-call watchdog
             return n * per
+        if shard[0] == "a2":
+            return 50.0
         if shard[0] in ("b", "bcore"):
             n3 = len(CORE_STATEMENTS) + (len(EXTRA_STATEMENTS) if tier == "thorough" else 0)
             return 2.0 * (n3 * n3 if shard[0] == "bcore" else len(STATEMENTS))
@@ -835,6 +956,7 @@ class C27(Prop):
             signatures_without_call_syntax=[u["name"] + "/" + str(u["arity"]) for u in uni if not u["template"]],
             skipped_builtins=[],
             restricted_builtins=RESTRICTED_WHY,
+            arithmetic_functions=len(arithmetic_functions()),
             statements_b=len(STATEMENTS),
             rules_b2=len(b2_rules()),
             tokens_c=len(TOKENS),
@@ -856,6 +978,8 @@ class C27(Prop):
         with quiet() as q:
             if shard[0] == "a":
                 run_calls(universe()[shard[1]], tier, acc)
+            elif shard[0] == "a2":
+                run_arithmetic(shard[1], acc)
             elif shard[0] in ("b", "bcore"):
                 run_programs(b_programs(shard), "b", acc, shard)
             elif shard[0] == "b2":
@@ -871,7 +995,7 @@ class C27(Prop):
         site, exc = case["site"], case["exc"]
         expected = "results or a ProbLogError subclass"
         with quiet():
-            programs = list(HINTS)
+            programs = [HINTS[k] for k in ("%s@%s" % (exc, site),) if k in HINTS]
             if isinstance(case.get("example"), str):
                 programs.insert(0, case["example"])
             for src in programs:
